@@ -3,6 +3,9 @@
 package protojson
 
 import (
+	"google.golang.org/protobuf/internal/encoding/json"
+	"google.golang.org/protobuf/reflect/protoreflect"
+
 	"google.golang.org/protobuf/internal/zzverif/nd"
 )
 
@@ -198,5 +201,97 @@ func H_C23_duration_limits() {
 		}
 	} else {
 		nd.Assert(!ok, "a 20-digit seconds value never fits and is rejected")
+	}
+}
+
+// ---- model Duration message for the range check in unmarshalDuration ----
+
+type c23fd struct {
+	protoreflect.FieldDescriptor
+	num protoreflect.FieldNumber
+}
+
+func (f c23fd) Number() protoreflect.FieldNumber { return f.num }
+
+type c23fields struct{ protoreflect.FieldDescriptors }
+
+func (c23fields) ByNumber(n protoreflect.FieldNumber) protoreflect.FieldDescriptor { return c23fd{num: n} }
+
+type c23md struct{ protoreflect.MessageDescriptor }
+
+func (c23md) Fields() protoreflect.FieldDescriptors { return c23fields{} }
+
+type c23msg struct {
+	protoreflect.Message
+	secs  *int64
+	nanos *int32
+	sets  *int
+}
+
+func (m c23msg) Descriptor() protoreflect.MessageDescriptor { return c23md{} }
+func (m c23msg) Set(fd protoreflect.FieldDescriptor, v protoreflect.Value) {
+	*m.sets++
+	switch fd.Number() {
+	case 1:
+		*m.secs = v.Int()
+	case 2:
+		*m.nanos = int32(v.Int())
+	}
+}
+
+// H_C23_duration_range: unmarshalDuration rejects seconds outside +-315576000000 (10000 years)
+// and stores exactly (seconds, nanos) otherwise: quoted literals whose integer part is a concrete
+// 10-digit prefix just below / at the limit followed by two symbolic digits, optional sign and
+// one optional fraction digit.
+//
+//verif:props=C23 bounds=quoted-literal;sign?;prefix-3155759999-or-3155760000+2-symbolic-digits;optional-fraction-digit
+func H_C23_duration_range() {
+	sign := nd.Int(0, 1)
+	prefix := "3155759999"
+	base := int64(315575999900)
+	if nd.Bool() {
+		prefix = "3155760000"
+		base = 315576000000
+	}
+	d := nd.BytesN(2)
+	nd.Assume(c23digit(d[0]) && c23digit(d[1]))
+	in := []byte{'"'}
+	if sign == 1 {
+		in = append(in, '-')
+	}
+	in = append(in, prefix...)
+	in = append(in, d...)
+	frac := nd.Bool()
+	var fd byte
+	if frac {
+		fd = nd.Byte()
+		nd.Assume(c23digit(fd))
+		in = append(in, '.', fd)
+	}
+	in = append(in, 's', '"')
+	var secs int64
+	var nanos int32
+	sets := 0
+	dec := decoder{json.NewDecoder(in), UnmarshalOptions{}}
+	err := dec.unmarshalDuration(c23msg{secs: &secs, nanos: &nanos, sets: &sets})
+	want := base + int64(d[0]-'0')*10 + int64(d[1]-'0')
+	nd.Reach("parsed")
+	if want > 315576000000 {
+		nd.Reach("out of range")
+		nd.Assert(err != nil, "seconds beyond 10000 years are rejected")
+		nd.Assert(sets == 0, "nothing is stored for a rejected value")
+	} else {
+		nd.Reach("in range")
+		nd.Assert(err == nil, "seconds within 10000 years are accepted")
+		if err == nil {
+			wn := int32(0)
+			if frac {
+				wn = int32(fd-'0') * 100000000
+			}
+			if sign == 1 {
+				want, wn = -want, -wn
+			}
+			nd.Assert(secs == want && nanos == wn, "stored seconds and nanos are exact")
+		}
 	}
 }
